@@ -1,4 +1,5 @@
 """C19 -- failures are reported only as ValueError/TypeError; nothing crashes."""
+import os
 from common import Family, call, outcome, all_of, any_of, sym_eq
 import urlkit as U
 
@@ -158,6 +159,47 @@ def h_build_authority(ctx, n):
         ctx.check("built-url-accessors-only-ValueError-TypeError", ok_type(rc), rc[1])
 
 
+SWEEP = r"""
+import sys, json
+sys.path.insert(0, sys.argv[1])
+import _testcapi
+from yarl import _quoting_c as qc
+kind, cfg, cps = sys.argv[2], json.loads(sys.argv[3]), json.loads(sys.argv[4])
+f = getattr(qc, kind)(**cfg)
+text = "".join(map(chr, cps)) + "\u00e9" * 3000
+good = f(text)
+bad = []
+for k in range(0, 24):
+    exc = None
+    _testcapi.set_nomemory(k, k + 1)
+    try:
+        try:
+            f(text)
+        except MemoryError:
+            pass
+        except BaseException as e:
+            exc = type(e).__name__
+    finally:
+        _testcapi.remove_mem_hooks()
+    if exc is not None:
+        bad.append([k, exc])
+    if f(text) != good:
+        bad.append([k, "later call returned a different result"])
+print(json.dumps(bad))
+"""
+
+
+def real_fault_sweep(pkg_dir, kind, cfg, s):
+    import json
+    import subprocess
+    import sys
+    p = subprocess.run([sys.executable, "-c", SWEEP, pkg_dir, kind, json.dumps(cfg), json.dumps([ord(c) for c in s])],
+                       capture_output=True, text=True, timeout=120)
+    if p.returncode != 0:
+        return [["child", "exit status %d: %s" % (p.returncode, p.stderr[-200:])]]
+    return json.loads(p.stdout.strip().splitlines()[-1])
+
+
 def h_alloc(ctx, kind, cfg, n, max_faults):
     """compiled quoter under every allocation-failure schedule: MemoryError, no leak / double free / static free,
     and the next (fault-free) call returns the fault-free result"""
@@ -166,9 +208,14 @@ def h_alloc(ctx, kind, cfg, n, max_faults):
     s = ctx.str("s", n)
     f = getattr(qc, kind)(**cfg)
     if not hasattr(qc, "_c"):
-        # replay on the real extension: faults cannot be injected from here; the functional result is still compared
+        # replay on the real extension (rebuilt from the working tree): the functional result is compared on every path;
+        # for counterexamples (and a sample of path witnesses) every allocation-failure point is injected with
+        # _testcapi.set_nomemory in a child process, on a text padded so that the output outgrows the 8 KiB buffer twice
         r = call(f, s)
         ctx.observe("fault-free", r[:2])
+        if getattr(ctx, "purpose", "") == "counterexample" or (sum(map(ord, s)) % 16 == 0):
+            bad = real_fault_sweep(os.path.dirname(os.path.dirname(qc.__file__)), kind, cfg, s)
+            ctx.check("fault-surfaces-as-MemoryError", not bad, bad)
         return
     c = qc._c
     c.reset_heap()
